@@ -265,6 +265,15 @@ impl AtomicBool {
     }
     #[track_caller]
     pub fn compare_exchange(&self, c: bool, n: bool, s: Ordering, f: Ordering) -> Result<bool, bool> {
+        // Deep inside a long `lock_spin` run (after the first 64 failures of
+        // this thread, which are ordinary scheduling points) a failing attempt
+        // is answered from the mirror without a loom operation: the mirror is
+        // exact, a failed compare_exchange with a Relaxed failure ordering has
+        // no memory effect, and loom's per-thread clocks (16 bit) could not
+        // count the hundreds of thousands of attempts of a long hold anyway.
+        if f == Ordering::Relaxed && !c && n && self.mirror.load(Ordering::Relaxed) && crate::ctl::take_lock_spin_deep() {
+            return Err(true);
+        }
         let r = self.a().compare_exchange(c, n, s, f);
         match r {
             Ok(_) => self.written(n),
